@@ -1,12 +1,132 @@
-/- Driver family `asset`: C18 — asset binaries.  (stub: replace `family`) -/
+/-
+Driver family `asset` (C18).  Case line
+  `<id> asset <header-flags> p:<name>,<s1>,…,<s33>,<t34>,…,<t51>*`
+strings: `~` absent, `-` empty, else hex of UTF-8; typed field: `0|1` (use flag) followed by the
+8 hex digits of the value's four bytes (u32 / f32 bits little-endian, colour array as is).
+Implementation / model line after the id: as for `aset`, the value being `<flags>/p:…/p:…`.
+-/
 import Driver.Common
+import MilaModel.Model.AssetBinary
+import MilaModel.Spec.Asset
 
 namespace Driver.Asset
-open Mila
+open Mila Mila.Asset
+
+def optOf (s : String) : Option Bytes := if s == "~" then none else some (hexOrBad s)
+
+def showOpt : Option Bytes → String
+  | none => "~"
+  | some b => hexOfBytes b
+
+def valOf (s : String) : Bool × Bytes := (s.startsWith "1", hexOrBad (s.drop 1).toString)
+
+def hex4 (b : Bytes) : String :=
+  String.ofList (b.foldr (fun x acc => hexDigit (x.toNat / 16) :: hexDigit (x.toNat % 16) :: acc) [])
+
+def showVal (v : Bool × Bytes) : String := (if v.1 then "1" else "0") ++ hex4 v.2
+
+def specOf (s : String) : AssetSpec :=
+  let parts := ((s.drop 2).toString.splitOn ",")
+  ⟨optOf (parts.headD "~"), ((parts.drop 1).take 33).map optOf, (parts.drop 34).map valOf⟩
+
+def showSpec (s : AssetSpec) : String :=
+  "p:" ++ ",".intercalate (showOpt s.name :: s.strs.map showOpt ++ s.vals.map showVal)
+
+def showBinary (b : AssetBinary) : String :=
+  "/".intercalate (toString b.flags :: b.specs.map showSpec)
+
+def binaryOf (c : List String) : Option AssetBinary :=
+  match c with
+  | _ :: "asset" :: fl :: specs => some ⟨fl.toNat?.getD 0, specs.map specOf⟩
+  | _ => none
+
+def modelOut (b : AssetBinary) : String :=
+  match serialize sjisSub b with
+  | .panic => "panic"
+  | .err _ => "err"
+  | .ok bytes =>
+    match BinArchive.parse sjisSub .little bytes with
+    | .ok a =>
+      let head := "ok " ++ toString a.size ++ " " ++ hexOfBytes bytes
+      match fromArchive a with
+      | .ok b' =>
+        let re := match serialize sjisSub b' with
+          | .ok b2 => if b2 = bytes then "same" else hexOfBytes b2
+          | .err _ => "err"
+          | .panic => "panic"
+        head ++ " rr-ok " ++ showBinary b' ++ " " ++ re
+      | .err _ => head ++ " rr-err"
+      | .panic => head ++ " rr-panic"
+    | .err _ => "ok ? " ++ hexOfBytes bytes ++ " rr-err"
+    | .panic => "ok ? " ++ hexOfBytes bytes ++ " rr-panic"
+
+def nameOk (n : Option Bytes) : Bool :=
+  match n with
+  | none => true
+  | some s =>
+    match sjisSub.enc s with
+    | some b => !b.contains 0 && sjisSub.dec b == s
+    | none => false
+
+def inDomain (b : AssetBinary) : Bool :=
+  decide (b.flags < 2 ^ 32) && b.specs.all (fun s =>
+    decide (Spec.Asset.WF s.strs s.vals) && nameOk s.name && s.strs.all nameOk)
+
+/-- Check the flag bytes of record `k` of the real image against the specification. -/
+def recordCheck (k : Nat) (s : AssetSpec) (flags : List Nat) : Option String :=
+  let ext := Spec.Asset.extended s.strs s.vals
+  if flags.length != Spec.Asset.flagBytes s.strs s.vals then
+    some ("short-form: record " ++ toString k ++ " has " ++ toString flags.length ++ " flag bytes, extended=" ++ toString ext)
+  else if Spec.Asset.marked flags != ext then
+    some ("short-form: record " ++ toString k ++ " marker bit differs from extended=" ++ toString ext)
+  else if Spec.Asset.announcedLen flags != Spec.Asset.recordLen s.strs s.vals then
+    some ("length: record " ++ toString k ++ " announces " ++ toString (Spec.Asset.announcedLen flags)
+      ++ " bytes, the formula gives " ++ toString (Spec.Asset.recordLen s.strs s.vals))
+  else
+    match (List.range' 1 51).find? (fun i => Spec.Asset.flagAt flags i != Spec.Asset.fieldPresent s.strs s.vals i) with
+    | some i => some ("flags: record " ++ toString k ++ " flag bit " ++ toString i ++ " differs from the field's presence")
+    | none => none
+
+def recordsCheck : Nat → List AssetSpec → List (List Nat) → Option String
+  | k, s :: ss, f :: fs => match recordCheck k s f with
+    | some e => some e
+    | none => recordsCheck (k + 1) ss fs
+  | _, [], [] => none
+  | _, _, _ => some "length: record count"
+
+def oracle (b : AssetBinary) (i : List String) : String :=
+  if !inDomain b then "ok skip out-of-domain" else
+  match i with
+  | [_, "ok", size, bytes, "rr-ok", value, re] =>
+    let img := hexOrBad bytes
+    let expect := Spec.Asset.dataSize (b.specs.map (fun s => (s.strs, s.vals)))
+    let norm : AssetBinary := ⟨b.flags, b.specs.map (fun s => { s with vals := Spec.Asset.normalizeVals s.vals })⟩
+    if size != toString expect then
+      "FAIL length: data section is " ++ size ++ " bytes, the formula gives " ++ toString expect
+    else if ofLe ((img.drop 4).take 4) != expect then
+      "FAIL length: header data-size word differs from the formula " ++ toString expect
+    else
+      let data := (img.drop 0x20).take expect
+      match Spec.Asset.walk data b.specs.length 4 with
+      | none => "FAIL length: records run past the data section"
+      | some (flags, e) =>
+        if e + 4 != expect then "FAIL length: records end at " ++ toString e ++ " of " ++ toString expect
+        else match recordsCheck 0 b.specs flags with
+          | some err => "FAIL " ++ err
+          | none =>
+            if value != showBinary norm then "FAIL roundtrip: re-read value differs from the input"
+            else if re != "same" then "FAIL idempotent: re-serialising the re-read value gives other bytes"
+            else "ok"
+  | _ :: "panic" :: _ => "FAIL panic"
+  | _ :: "err" :: _ => "FAIL serialize failed"
+  | _ => "FAIL roundtrip: the serialised file could not be re-read"
 
 def family : Family where
   State := Unit
   init := ()
-  step := fun _ _ _ => ((), "unimplemented", "FAIL unimplemented")
+  step := fun _ c i =>
+    match binaryOf c with
+    | some b => ((), modelOut b, oracle b i)
+    | none => ((), "bad-case", "FAIL bad-case")
 
 end Driver.Asset
